@@ -1,4 +1,5 @@
 import SluVerif.Props.C05
+import SluVerif.Props.C05Dyn
 #print axioms Slu.slots_tile
 #print axioms Slu.slots_disjoint
 #print axioms Slu.bump_in_slot
@@ -7,3 +8,7 @@ import SluVerif.Props.C05
 #print axioms Slu.bump_disjoint
 #print axioms Slu.bumpChecked_safe
 #print axioms Slu.bumpChecked_aborts_iff
+#print axioms Slu.reservations_disjoint
+#print axioms Slu.alloc_in_slot_iff
+#print axioms Slu.alloc_overruns_neighbour
+#print axioms Slu.dinv_run
